@@ -7,6 +7,25 @@ ID = "C01"
 PROPERTIES_V = "theories/Properties/C01.v"
 CASE_IMPORTS = "From GV Require Import Prelude.Base Model.Ws Model.WsCheck."
 ALLOWED_AXIOMS: list = []
+REFUTED = ["C01_reopen_refuted (full statement: witness ops_stale = re-creation over a stale flat node; open known finding stale-node-reused)"]
+PARTIAL = ["C01_reopen_partial (for ALL histories without re-creation over a stale node (fresh_run): re-open succeeds and yields the live tree up to children order)", "C01_load_rep (the loader rebuilds any represented tree)"]
+LEVEL_TEXT = ("Unbounded Coq theorems over the workspace/file model: for ALL operation sequences (create, rename, flag, array, move, remove via workspace or parent, "
+              "GC-dependent sweeps, close/re-open at any position) that never create an entity over a stale flat node, the file represents the live tree (invariant Rep, "
+              "2.5 kLoC of proofs) and a fresh open rebuilds exactly that tree up to children order (C01_reopen_partial); the unrestricted statement is refuted with a "
+              "machine-checked witness that is replayed on the implementation (open known finding). Tie: hand model vs. implementation after every op (live tree + raw file dump) "
+              "on generated histories, plus an oracle-only stream over property groups, copies, many classes and types.")
+TRUSTED = [
+    "Coq 8.16.1 kernel + vm_compute (refutation witnesses, correspondence evaluation); Print Assumptions: closed under the global context for every theorem",
+    "hand-written model coq/theories/Model/Ws.v (memory tree + geoh5 file as a link graph with addresses) of Workspace.{create_entity, register, save_entity, update_attribute, remove_entity, remove_recursively, remove_children, remove_none_referents, close, open/fetch_or_create_root/fetch_children/load_entity}, Entity.parent setter, EntityContainer/ObjectBase.{add_children, remove_children}, H5Writer.{save_entity, write_entity, write_to_parent, remove_child, remove_entity, update_field/write_attributes/write_array_attribute/write_data_values}, H5Reader.{fetch_attributes, fetch_children}; tied to the code by comparing, after EVERY operation of generated histories, the live tree and a raw h5py dump of the file with the model (vm_compute)",
+    "modelled classes: RootGroup/ContainerGroup, Points, FloatData (one array token each); property groups, types, copies, other classes and concatenated drillholes are outside the Coq model and reach the check through the implementation-side oracle streams only",
+    "CPython/weakref/gc: the driver drops its references and runs gc.collect() after every operation, so 'dead' = 'not reachable from the root'; GC placement is represented by the explicit Sweep (listing getter) operations of the history",
+    "h5py/HDF5 behaviour (hard links = same object address, member iteration by name, attribute and dataset storage) is observed, not verified",
+    "tools/props/wsmodel.py (history generator, driver, canonicalisation of identifiers uuid.UUID(int=n+1) <-> n, raw dump, node digests, structural validator) and tools/props/wsext.py (extended oracle-only histories)",
+]
+ASSUMPTIONS = [
+    "operands are entities currently in the tree (no use-after-remove), identifiers are supplied explicitly so that model and code name entities alike",
+    "uuid4 never collides (fresh identifiers)",
+]
 DRIVE_TIMEOUT = 2400
 RULE = ("random API histories (12-30 ops: create group/points/data with explicit identifiers, rename, allow_delete flag, "
         "array assignment, move, remove through the workspace or through the parent, listing getters (= GC-dependent sweeps; "
